@@ -290,6 +290,34 @@ func main() {
 			inputs = append(inputs, in{append(append([]byte{}, hd...), refsmf.Chunk("MTrk", body)...), fmt.Sprintf("long-vlq-%d-%d", ni, ki)})
 		}
 	}
+	// chunks that declare more bytes than their events take (bytes after the
+	// end-of-track inside the chunk), in the last and in an earlier track; an
+	// SMF inside a RIFF "RMID" container; a file preceded by a few stray bytes
+	{
+		ev := []byte{0x00, 0x90, 0x3C, 0x40, 0x10, 0x80, 0x3C, 0x00, 0x00, 0xFF, 0x2F, 0x00}
+		ev2 := []byte{0x00, 0xC1, 0x05, 0x00, 0xFF, 0x2F, 0x00}
+		trk := func(body []byte) []byte { return refsmf.Chunk("MTrk", body) }
+		cat := func(parts ...[]byte) []byte {
+			var o []byte
+			for _, p := range parts {
+				o = append(o, p...)
+			}
+			return o
+		}
+		for _, pad := range [][]byte{{0}, {0, 0, 0, 0}, {0x00, 0x90, 0x3C}, make([]byte, 600)} {
+			padded := cat(ev, pad)
+			inputs = append(inputs,
+				in{cat(refsmf.Header(0, 1, 96), trk(padded)), fmt.Sprintf("padded-last-track-%d", len(pad))},
+				in{cat(refsmf.Header(1, 2, 96), trk(padded), trk(ev2)), fmt.Sprintf("padded-first-of-two-%d", len(pad))},
+				in{cat(refsmf.Header(1, 3, 96), trk(ev2), trk(padded), trk(ev)), fmt.Sprintf("padded-middle-of-three-%d", len(pad))})
+		}
+		plain := cat(refsmf.Header(0, 1, 96), trk(ev))
+		riff := []byte("RIFF\x00\x00\x00\x00RMIDdata\x00\x00\x00\x00")
+		riff[4] = byte(len(plain) + 12)
+		riff[16] = byte(len(plain))
+		inputs = append(inputs, in{cat(riff, plain), "rmid-container"}, in{cat([]byte{0x00, 0x00}, plain), "two-bytes-before-header"},
+			in{cat([]byte("MThd"), plain), "magic-twice"})
+	}
 	// inputs that are not valid files (the result must still not depend on the
 	// fragmentation): a header chunk longer than 6 bytes; more tracks declared
 	// than present combined with every kind of last byte
